@@ -1,5 +1,8 @@
 import Bridge.Serdes
+import Bridge.Codec
 import Props.C06BitIO
+import Props.C06WireIO
+import Props.C07
 /-!
 # C07 over the bit-level reader generated from `_serdes.py`
 
@@ -118,3 +121,149 @@ theorem C07.gen_reader_align_to (g : Gen.ReaderS) (a : ℕ) :
     rw [this, Nat.mul_mod_right]
 
 example : Gen.BitReader.align_to ⟨[1, 2, 3, 4], 0, 9, none⟩ 8 = .ok ⟨[1, 2, 3, 4], 0, 16, none⟩ := by decide +kernel
+
+/-!
+# C07 over the DESERIALIZER generated from `_serdes.py`
+
+`Gen/Codec.lean` is translated on every run from the functions `deserialize`, `_deserialize_primitive`, `_deserialize_array`,
+`_deserialize_element`, `_deserialize_composite`, `_deserialize_field_value` of the working tree of /repo (schema objects with dynamic
+attribute access and `isinstance` dispatch, Python values, explicit reader state, one unit of fuel per Python frame).
+`Bridge/Codec.lean` proves that on every well-formed schema object the generated code returns exactly what the hand-written
+`WireIO.decR` / `deserializeR` return; `Props/C06WireIO.lean` proves those equal to `Wire.dec` / `Wire.deserialize`.  The theorems
+below restate the C07 theorems over the generated `deserialize`.
+
+Hypotheses on the schema object `s`: `okT s` (the object graph is one that pydsdl's constructors build), `isCompObj s` (a structure,
+union or delimited type: what `deserialize` accepts besides services), `(tyOf s).wf` (the descriptor is well-formed), and
+`depth s ≤ Py.recursionLimit` (the nesting depth fits into CPython's recursion limit; deeper types raise RecursionError in Python, too).
+-/
+open Py in
+/-- **The generated `deserialize` is the model's `deserialize`**: for every byte string and both values of
+    `with_delimiter_header` it returns the Python value of the model's value, or raises the exception of the model's error
+    class (`errOf`: ArrayLengthError / UnionTagError / DelimiterHeaderError / ValueError). -/
+theorem C07.gen_deserialize_is_model (s : Obj) (hs : okT s = true) (hc : isCompObj s = true) (hw : (tyOf s).wf = true)
+    (hd : depth s ≤ Py.recursionLimit) (data : List ℕ) (hb : IsBytes data) (hdr : Bool) :
+    Gen.Codec.deserialize s data hdr = liftTop s (Wire.deserialize (tyOf s) (bytesToBits data) hdr) := by
+  rw [gen_deserialize s hs hc hw hd data hb hdr, C07.deserialize_bytes _ _ _ hw]
+
+/-- a schema object with every kind of member: primitive fields of odd widths, padding, a variable-length array of signed
+    integers, a float, a fixed array of a nested union, a delimited union with a UTF-8 string variant -/
+def C07.exObj : Py.Obj :=
+  .structure
+    [.field (.unsigned 8 .saturated) "a", .paddingField (.void 3),
+     .field (.varArray (.signed 3 .saturated) 5 (.unsigned 8 .truncated)) "b",
+     .field (.float 16 .saturated) "f",
+     .field (.fixedArray (.union [.field .boolean "p", .field (.unsigned 5 .truncated) "q"] (.unsigned 8 .truncated) 8 "ns.V") 2) "w",
+     .field (.delimited (.union [.field .boolean "x", .field (.varArray .utf8 4 (.unsigned 8 .truncated)) "s",
+        .field (.varArray .byte 2 (.unsigned 8 .truncated)) "y"] (.unsigned 8 .truncated) 8 "ns.U")
+        (.unsigned 32 .truncated) 64 8) "u"] 8 "ns.S"
+
+example : okT C07.exObj = true ∧ isCompObj C07.exObj = true ∧ (tyOf C07.exObj).wf = true ∧
+    depth C07.exObj ≤ Py.recursionLimit := by decide
+
+/-- evaluated (the same bytes give the same dict in CPython): -/
+example : Gen.Codec.deserialize C07.exObj [7, 24, 184, 6, 192, 3, 1, 9, 0, 0, 5, 0, 0, 0, 1, 3, 65, 195, 169] false
+    = .ok (.dict [("a", .int 7), ("b", .list [.int (-1), .int 2, .int 3]), ("f", .float 0x3C00),
+        ("w", .list [.dict [("q", .int 9)], .dict [("p", .bool false)]]), ("u", .dict [("s", .str [65, 195, 169])])]) :=
+  sameOutcome_sound (by decide +kernel)
+/-- invalid UTF-8 inside the delimited union; an over-long array; a tag that names no variant; a header beyond the data -/
+example : Gen.Codec.deserialize C07.exObj [7, 24, 184, 6, 192, 3, 1, 9, 0, 0, 5, 0, 0, 0, 1, 3, 65, 195, 40] false
+    = .error .valueError := sameOutcome_sound (by decide +kernel)
+example : Gen.Codec.deserialize C07.exObj [7, 0x30] false = .error (.other "ArrayLengthError") :=
+  sameOutcome_sound (by decide +kernel)
+example : Gen.Codec.deserialize C07.exObj [7, 0, 0, 0, 0, 2] false = .error (.other "UnionTagError") :=
+  sameOutcome_sound (by decide +kernel)
+example : Gen.Codec.deserialize C07.exObj [7, 0, 0, 0, 0, 0, 0, 0, 0, 0, 9, 0, 0, 0, 1] false
+    = .error (.other "DelimiterHeaderError") := sameOutcome_sound (by decide +kernel)
+
+/-- the exception classes `deserialize` may raise -/
+def C07.DecodeError (e : Py.Err) : Prop :=
+  e = .other "ArrayLengthError" ∨ e = .other "UnionTagError" ∨ e = .other "DelimiterHeaderError" ∨ e = .valueError
+
+theorem C07.errOf_decodeError (e : Wire.Err) (h : e.isDecodeError = true) : C07.DecodeError (errOf e) := by
+  cases e <;> simp [Wire.Err.isDecodeError] at h <;> simp [C07.DecodeError, errOf]
+
+open Py in
+/-- **Totality of the generated `deserialize`**: every byte string yields a value or one of the four documented exception
+    classes -- never IndexError, KeyError, TypeError, AttributeError, AssertionError, struct.error, OverflowError, RecursionError,
+    which the generated code could express (`Py.Err`) and PyLib / PyLib.Codec raise where CPython does. -/
+theorem C07.gen_deserialize_total (s : Obj) (hs : okT s = true) (hc : isCompObj s = true) (hw : (tyOf s).wf = true)
+    (hd : depth s ≤ Py.recursionLimit) (data : List ℕ) (hb : IsBytes data) (hdr : Bool) :
+    (∃ v, Gen.Codec.deserialize s data hdr = .ok v) ∨
+      (∃ e, Gen.Codec.deserialize s data hdr = .error e ∧ C07.DecodeError e) := by
+  rw [C07.gen_deserialize_is_model s hs hc hw hd data hb hdr]
+  rcases C07.total (tyOf s) (bytesToBits data) hdr with ⟨v, h⟩ | ⟨e, h, he⟩
+  · exact Or.inl ⟨_, by rw [h]; rfl⟩
+  · exact Or.inr ⟨_, by rw [h]; rfl, C07.errOf_decodeError e he⟩
+
+theorem C07.liftTop_ok {s : Py.Obj} {y : Except Wire.Err Wire.Val} {pv : Py.Value} (h : liftTop s y = .ok pv) :
+    ∃ v, y = .ok v ∧ pv = valueOf s v := by
+  cases y with
+  | error e => cases h
+  | ok v => exact ⟨v, rfl, by cases h; rfl⟩
+
+theorem C07.bytesToBits_zeros (data : List ℕ) (k : ℕ) :
+    bytesToBits (data ++ List.replicate k 0) = bytesToBits data ++ Wire.zeros (8 * k) := by
+  rw [bytesToBits_append, bytesToBits_replicate_zero]; rfl
+
+open Py in
+/-- **Implicit zero extension, generated code**: if a byte string decodes, the same bytes followed by any number of zero bytes
+    decode to the same Python object. -/
+theorem C07.gen_zero_ext (s : Obj) (hs : okT s = true) (hc : isCompObj s = true) (hw : (tyOf s).wf = true)
+    (hd : depth s ≤ Py.recursionLimit) (data : List ℕ) (hb : IsBytes data) (hdr : Bool) (k : ℕ) (pv : Value)
+    (h : Gen.Codec.deserialize s data hdr = .ok pv) :
+    Gen.Codec.deserialize s (data ++ List.replicate k 0) hdr = .ok pv := by
+  rw [C07.gen_deserialize_is_model s hs hc hw hd data hb hdr] at h
+  obtain ⟨v, hv, rfl⟩ := C07.liftTop_ok h
+  rw [C07.gen_deserialize_is_model s hs hc hw hd _ (isBytes_append hb (isBytes_replicate_zero k)) hdr, C07.bytesToBits_zeros,
+    C07.zero_ext _ _ _ _ _ hv]
+  rfl
+
+open Py in
+/-- **… and its converse**: if the zero-extended byte string decodes, the original one decodes to the same object -- unless it
+    raises DelimiterHeaderError (a delimiter header that exceeds the data actually present; the exception the property names). -/
+theorem C07.gen_zero_ext_conv (s : Obj) (hs : okT s = true) (hc : isCompObj s = true) (hw : (tyOf s).wf = true)
+    (hd : depth s ≤ Py.recursionLimit) (data : List ℕ) (hb : IsBytes data) (hdr : Bool) (k : ℕ) (pv : Value)
+    (h : Gen.Codec.deserialize s (data ++ List.replicate k 0) hdr = .ok pv) :
+    Gen.Codec.deserialize s data hdr = .ok pv ∨ Gen.Codec.deserialize s data hdr = .error (.other "DelimiterHeaderError") := by
+  rw [C07.gen_deserialize_is_model s hs hc hw hd _ (isBytes_append hb (isBytes_replicate_zero k)) hdr, C07.bytesToBits_zeros] at h
+  obtain ⟨v, hv, rfl⟩ := C07.liftTop_ok h
+  rw [C07.gen_deserialize_is_model s hs hc hw hd data hb hdr]
+  rcases C07.zero_ext_conv _ _ _ _ _ hv with h1 | h1
+  · left; rw [h1]; rfl
+  · right; rw [h1]; rfl
+
+/-- the header of the delimited member announces 4 bytes, 3 are there: DelimiterHeaderError; with one zero byte appended: decoded -/
+example : Gen.Codec.deserialize C07.exObj [7, 0, 0, 0, 0, 0, 0, 0, 0, 4, 0, 0, 0, 1, 2, 65] false
+      = .error (.other "DelimiterHeaderError") ∧
+    Gen.Codec.deserialize C07.exObj ([7, 0, 0, 0, 0, 0, 0, 0, 0, 4, 0, 0, 0, 1, 2, 65] ++ List.replicate 1 0) false
+      = .ok (.dict [("a", .int 7), ("b", .list []), ("f", .float 0),
+          ("w", .list [.dict [("p", .bool false)], .dict [("p", .bool false)]]), ("u", .dict [("s", .str [65, 0])])]) :=
+  ⟨sameOutcome_sound (by decide +kernel), sameOutcome_sound (by decide +kernel)⟩
+
+open Py in
+/-- **Implicit truncation, generated code**: a byte string that starts with a complete representation of a valid value (as the
+    model's encoder lays it out; no delimiter header at the top) decodes to that value whatever follows. -/
+theorem C07.gen_truncation (s : Obj) (hs : okT s = true) (hc : isCompObj s = true) (hw : (tyOf s).wf = true)
+    (hd : depth s ≤ Py.recursionLimit) (v : Wire.Val) (hv : Wire.valid (tyOf s) v = true)
+    (data junk : List ℕ) (hb : IsBytes data) (hj : IsBytes junk) (henc : bytesToBits data = Wire.enc (tyOf s).inner v 0) :
+    Gen.Codec.deserialize s (data ++ junk) false = .ok (valueOf s v) := by
+  rw [C07.gen_deserialize_is_model s hs hc hw hd _ (isBytes_append hb hj) false, bytesToBits_append, henc,
+    C07.truncation _ _ _ hw hv]
+  rfl
+
+open Py in
+/-- **Fixed point, generated code**: whatever the generated `deserialize` returns is the Python value of a canonical value that
+    is valid for the type, and every byte string that starts with the encoding of that value decodes to the same object again. -/
+theorem C07.gen_fixed_point (s : Obj) (hs : okT s = true) (hc : isCompObj s = true) (hw : (tyOf s).wf = true)
+    (hd : depth s ≤ Py.recursionLimit) (data : List ℕ) (hb : IsBytes data) (hdr : Bool) (pv : Value)
+    (h : Gen.Codec.deserialize s data hdr = .ok pv) :
+    ∃ v, pv = valueOf s v ∧ Wire.valid (tyOf s) v = true ∧
+      ∀ data' junk, IsBytes data' → IsBytes junk →
+        bytesToBits data' = Wire.enc (if hdr = true then tyOf s else (tyOf s).inner) v 0 →
+        Gen.Codec.deserialize s (data' ++ junk) hdr = .ok pv := by
+  rw [C07.gen_deserialize_is_model s hs hc hw hd data hb hdr] at h
+  obtain ⟨v, hv, rfl⟩ := C07.liftTop_ok h
+  obtain ⟨h1, h2⟩ := C07.fixed_point _ _ _ _ hw hv
+  refine ⟨v, rfl, h1, fun data' junk hb' hj henc => ?_⟩
+  rw [C07.gen_deserialize_is_model s hs hc hw hd _ (isBytes_append hb' hj) hdr, bytesToBits_append, henc, h2]
+  rfl
